@@ -422,6 +422,7 @@ func (ex *Exec) resolveSameAs(c *FuncContract) *FuncContract {
 	if !ok {
 		ex.fail("interface contract %s: sameas target %s has no contract", c.Key, c.SameAs)
 	}
+	t.Used = true
 	cp := *t
 	cp.Params = c.Params
 	cp.Key = c.Key
@@ -1635,6 +1636,11 @@ func (ex *Exec) bytesOfAbstract(h *Term) *Term {
 func (ex *Exec) contractCallBehaviors(fr *frame, st *State, c *FuncContract, name string, sig *types.Signature, names []string, ptypes []types.Type, args []Val, pos string) Val {
 	p := ex.p
 	all := append([]*FuncContract{c}, c.Behaviors...)
+	for _, b := range all {
+		if b.Behavior != "schema" {
+			b.Used = true // (a schema instance is an obligation schema, not something callers rely on)
+		}
+	}
 	vars := map[string]tv{}
 	for i, n := range names {
 		if i < len(args) && n != "" && n != "_" {
